@@ -505,3 +505,242 @@ Proof.
 Qed.
 
 End RM.
+
+(* ---- what rm_all removes: only what lies beneath the named entry, and the entry itself ------- *)
+
+(* [e] is an entry of directory [c], or of a directory reached from [c] by descending through
+   entries that are real directories (a link is not a directory: never through a link) *)
+Inductive beneath (s : fs) : nat -> ent -> Prop :=
+| bn_here c e : In e (ents s) -> ent_dir e = c -> beneath s c e
+| bn_deep c n c' e : In (c, n, c') (ents s) -> is_dir s c' = true -> beneath s c' e -> beneath s c e.
+
+(* [e] is the entry (d, name) or lies beneath the directory under that name *)
+Definition under (s : fs) (d : nat) (name : bytes) (e : ent) : Prop :=
+  (ent_dir e = d /\ beq (ent_name e) name = true) \/
+  (exists n' c, In (d, n', c) (ents s) /\ beq name n' = true /\ is_dir s c = true /\ beneath s c e).
+
+Definition only_under (s0 s s' : fs) (d : nat) (name : bytes) : Prop :=
+  forall e, In e (ents s) -> ~ In e (ents s') -> under s0 d name e.
+
+Lemma is_dir_shrinks s s' o : shrinks s s' -> is_dir s' o = is_dir s o.
+Proof. intros (Hk & _). unfold FSModel.is_dir, FSModel.kind_of. rewrite Hk. reflexivity. Qed.
+
+Lemma beq_sym x y : beq x y = beq y x.
+Proof.
+  revert y. induction x as [|a x IH]; intros [|c y]; cbn [beq]; try reflexivity. rewrite N.eqb_sym, IH. reflexivity.
+Qed.
+
+Lemma unlink_sem_only s0 s d n fl s' : unlink_sem s d n fl = EUnit s' -> only_under s0 s s' d n.
+Proof.
+  unfold unlink_sem. intros H e He Hne.
+  assert (Hdel : s' = del_ent s d n).
+  { repeat (first [discriminate | match type of H with context [match ?x with _ => _ end] => destruct x end]); inversion H; reflexivity. }
+  subst s'. left. unfold del_ent in Hne. cbn [FSModel.ents] in Hne.
+  destruct (ent_at d n e) eqn:Ea.
+  - unfold ent_at in Ea. apply andb_true_iff in Ea. destruct Ea as [E1 E2]. apply Nat.eqb_eq in E1. split; assumption.
+  - exfalso. apply Hne. apply filter_In. split; [exact He|]. rewrite Ea. reflexivity.
+Qed.
+
+Lemma rm_inode_only s0 s d n : only_under s0 s (fst (rm_inode s d n)) d n.
+Proof.
+  unfold rm_inode.
+  destruct (unlink_sem s d n 0) as [|ue|s'|s' o] eqn:E1.
+  - destruct (unlink_sem s d n AT_REMOVEDIR) as [|re|s'|s' o] eqn:E2; cbn [fst]; try (intros e He Hne; contradiction). exact (unlink_sem_only _ _ _ _ _ _ E2).
+  - destruct (unlink_sem s d n AT_REMOVEDIR) as [|re|s'|s' o] eqn:E2; cbn [fst]; try (intros e He Hne; contradiction). exact (unlink_sem_only _ _ _ _ _ _ E2).
+  - cbn [fst]. exact (unlink_sem_only _ _ _ _ _ _ E1).
+  - destruct (unlink_sem s d n AT_REMOVEDIR) as [|re|s''|s'' o'] eqn:E2; cbn [fst]; try (intros e He Hne; contradiction). exact (unlink_sem_only _ _ _ _ _ _ E2).
+Qed.
+
+(* an entry that disappeared between s and s'' disappeared between s and s' or between s' and s'' *)
+Lemma gone_split s s' s'' (e : ent) : In e (ents s) -> ~ In e (ents s'') ->
+  (forall x y : ent, {x = y} + {x <> y}) -> ~ In e (ents s') \/ (In e (ents s') /\ ~ In e (ents s'')).
+Proof. intros He Hne dec. destruct (in_dec dec e (ents s')) as [Hin|Hnin]; [right; split; assumption|left; exact Hnin]. Qed.
+
+Lemma ent_dec (x y : ent) : {x = y} + {x <> y}.
+Proof. repeat decide equality. Qed.
+
+(* everything a scan of directory [c] removes lies beneath [c] *)
+Definition only_beneath (s0 s s' : fs) (c : nat) : Prop :=
+  forall e, In e (ents s) -> ~ In e (ents s') -> beneath s0 c e.
+
+Lemma under_beneath s0 c n e : (forall e', In e' (ents s0) -> True) ->
+  under s0 c n e -> In e (ents s0) -> beneath s0 c e.
+Proof.
+  intros _ [[Hd _]|(n' & c' & Hin & _ & Hdir & Hb)] He.
+  - apply bn_here; assumption.
+  - eapply bn_deep; eassumption.
+Qed.
+
+Lemma rm_entries_only s0 c rec :
+  (forall s n s' r, shrinks s0 s -> rec s n = Some (s', r) -> shrinks s s' /\ only_under s0 s s' c n) ->
+  forall g s buf read seen s' r, shrinks s0 s -> rm_entries rec g s c buf read seen = Some (s', r) ->
+  only_beneath s0 s s' c.
+Proof.
+  intro Hrec. induction g as [|g IH]; intros s buf read seen s' r Hsh H; cbn [rm_entries] in H; [discriminate|].
+  destruct buf as [|n rest].
+  - destruct read; [inversion H; subst; intros e He Hne; contradiction|]. eapply IH; eassumption.
+  - destruct (dot_or_dotdot n); [eapply IH; eassumption|].
+    destruct (rec s n) as [[s1 r1]|] eqn:Er; [|discriminate].
+    destruct (Hrec _ _ _ _ Hsh Er) as [Hs1 Ho1].
+    assert (Hb1 : only_beneath s0 s s1 c).
+    { intros e He Hne. apply (under_beneath s0 c n e (fun _ _ => I) (Ho1 e He Hne)). destruct Hsh as (_ & _ & Hi). apply Hi, He. }
+    destruct (ignore_enoent r1); [|inversion H; subst; exact Hb1].
+    pose proof (IH s1 rest read true s' r (shrinks_trans _ _ _ Hsh Hs1) H) as Hb2.
+    intros e He Hne. destruct (gone_split s s1 s' e He Hne ent_dec) as [Hg|[Hin Hg]]; [exact (Hb1 e He Hg)|exact (Hb2 e Hin Hg)].
+Qed.
+
+Lemma rm_rounds_only s0 d name c scan fin :
+  (forall s s' r, shrinks s0 s -> scan s = Some (s', r) -> shrinks s s' /\ only_beneath s0 s s' c) ->
+  (forall s, shrinks s0 s -> shrinks s (fst (fin s)) /\ only_under s0 s (fst (fin s)) d name) ->
+  (exists n', In (d, n', c) (ents s0) /\ beq name n' = true /\ is_dir s0 c = true) ->
+  forall g s s' r, shrinks s0 s -> rm_rounds scan fin g s = Some (s', r) -> only_under s0 s s' d name.
+Proof.
+  intros Hscan Hfin (n' & Hin0 & Hbn & Hdir0). induction g as [|g IH]; intros s s' r Hsh H; cbn [rm_rounds] in H; [discriminate|].
+  assert (Hlift : forall sa sb, only_beneath s0 sa sb c -> only_under s0 sa sb d name).
+  { intros sa sb Hb e He Hne. right. exists n', c. repeat split; try assumption. exact (Hb e He Hne). }
+  destruct (scan s) as [[s1 [[|]|e0]]|] eqn:Es; try discriminate; destruct (Hscan _ _ _ Hsh Es) as [Hs1 Hb1].
+  - pose proof (IH s1 s' r (shrinks_trans _ _ _ Hsh Hs1) H) as Hu2.
+    intros e He Hne. destruct (gone_split s s1 s' e He Hne ent_dec) as [Hg|[Hin Hg]]; [exact (Hlift _ _ Hb1 e He Hg)|exact (Hu2 e Hin Hg)].
+  - inversion H as [H1]. destruct (Hfin s1 (shrinks_trans _ _ _ Hsh Hs1)) as [_ Hu2]. rewrite H1 in Hu2. cbn [fst] in Hu2.
+    intros e He Hne. destruct (gone_split s s1 s' e He Hne ent_dec) as [Hg|[Hin Hg]]; [exact (Hlift _ _ Hb1 e He Hg)|exact (Hu2 e Hin Hg)].
+  - inversion H; subst. exact (Hlift _ _ Hb1).
+Qed.
+
+Theorem rm_all_only : forall fuel s0 s d name s' r, shrinks s0 s -> rm_all fuel s d name = Some (s', r) ->
+  only_under s0 s s' d name.
+Proof.
+  induction fuel as [|f IH]; intros s0 s d name s' r Hsh H; cbn [rm_all] in H; [discriminate|].
+  destruct (has_slash name); [inversion H; subst; intros e He Hne; contradiction|].
+  destruct (REMOVE_ALL_REFUSES_DOTS && dot_or_dotdot name) eqn:Hdots; [inversion H; subst; intros e He Hne; contradiction|].
+  change REMOVE_ALL_REFUSES_DOTS with true in Hdots. cbn [andb] in Hdots. unfold dot_or_dotdot in Hdots.
+  apply orb_false_iff in Hdots. destruct Hdots as [Hdot Hdd].
+  pose proof (rm_inode_shrinks s d name) as Hi. pose proof (rm_inode_only s0 s d name) as Ho.
+  destruct (rm_inode s d name) as [s1 r1]. cbn [fst] in Hi, Ho.
+  destruct (ignore_enoent r1); [inversion H; subst; exact Ho|].
+  destruct (mk_open s1 d name) as [c|e'] eqn:Eo.
+  2:{ destruct (N.eqb e' ENOENT); inversion H; subst; exact Ho. }
+  pose proof (shrinks_trans _ _ _ Hsh Hi) as Hs01.
+  (* the directory under that name, as an entry of the initial tree *)
+  assert (Hent : exists n', In (d, n', c) (ents s0) /\ beq name n' = true /\ is_dir s0 c = true).
+  { pose proof (mk_open_dir _ _ _ _ Eo) as Hdir. unfold mk_open, open1 in Eo.
+    destruct (negb (is_dir s1 d)); [discriminate|]. rewrite Hdot, Hdd in Eo.
+    destruct (lookup s1 d name) as [c'|] eqn:El; [|discriminate]. destruct (is_dir s1 c'); inversion Eo; subst c'.
+    destruct (find_ent_in _ _ _ _ El) as (n' & Hin & Hb). exists n'.
+    split; [destruct Hs01 as (_ & _ & Hincl); apply Hincl, Hin|]. split; [exact Hb|].
+    rewrite <- (is_dir_shrinks _ _ c Hs01). exact Hdir. }
+  assert (Hu2 : only_under s0 s1 s' d name).
+  { eapply (rm_rounds_only s0 d name c); [| |exact Hent|exact Hs01|exact H].
+    - intros s2 s3 r3 Hs2 Hsc. split.
+      + eapply rm_entries_shrinks; [|exact Hsc]. intros s4 n s5 r5 Hr. eapply rm_all_shrinks. exact Hr.
+      + eapply (rm_entries_only s0 c); [|exact Hs2|exact Hsc].
+        intros s4 n s5 r5 Hs4 Hr. split; [eapply rm_all_shrinks; exact Hr|eapply IH; eassumption].
+    - intros s2 Hs2. cbv beta. pose proof (rm_inode_shrinks s2 d name) as Hi2. pose proof (rm_inode_only s0 s2 d name) as Ho2.
+      destruct (rm_inode s2 d name) as [s3 r3]. cbn [fst] in *. split; assumption. }
+  intros x Hx Hnx. destruct (gone_split s s1 s' x Hx Hnx ent_dec) as [Hg|[Hin Hg]]; [exact (Ho x Hx Hg)|exact (Hu2 x Hin Hg)].
+Qed.
+
+(* ---- when remove_all reports success the named entry is gone --------------------------- *)
+
+Lemma lookup_del_ent s d n : lookup (del_ent s d n) d n = None.
+Proof.
+  unfold FSModel.lookup, del_ent. cbn [FSModel.ents]. induction (ents s) as [|[[d' n'] c] es IH]; cbn [filter FSModel.find_ent]; [reflexivity|].
+  unfold ent_at at 1. cbn [ent_dir ent_name fst snd].
+  destruct (Nat.eqb_spec d' d) as [->|Hne]; cbn [andb].
+  - destruct (beq n' n) eqn:Eb; cbn [negb]; [exact IH|]. cbn [FSModel.find_ent]. rewrite Nat.eqb_refl. cbn [andb].
+    rewrite beq_sym, Eb. exact IH.
+  - cbn [negb FSModel.find_ent]. destruct (Nat.eqb_spec d d'); [congruence|]. cbn [andb]. exact IH.
+Qed.
+
+Lemma unlink_sem_gone s d n fl s' : unlink_sem s d n fl = EUnit s' -> lookup s' d n = None.
+Proof.
+  unfold unlink_sem. intro H.
+  assert (Hdel : s' = del_ent s d n).
+  { repeat (first [discriminate | match type of H with context [match ?x with _ => _ end] => destruct x end]); inversion H; reflexivity. }
+  subst s'. apply lookup_del_ent.
+Qed.
+
+Lemma unlink_sem_enoent s d n fl : Dyn.plain n = true -> unlink_sem s d n fl = EErr ENOENT -> lookup s d n = None.
+Proof.
+  intros Hp. destruct (plain_facts _ Hp) as (Hnil & Hd & Hdd & Hsl & Hnu).
+  unfold unlink_sem. rewrite Hnil, Hsl, Hnu, Hd, Hdd. cbn [orb].
+  intro H. repeat (first [discriminate | reflexivity | match type of H with context [match ?x with _ => _ end] => destruct x eqn:? end]).
+Qed.
+
+Lemma rm_inode_gone s d n : Dyn.plain n = true -> ignore_enoent (snd (rm_inode s d n)) = Ok tt -> lookup (fst (rm_inode s d n)) d n = None.
+Proof.
+  intros Hp. unfold rm_inode.
+  destruct (unlink_sem s d n 0) as [|ue|s'|s' o] eqn:E1; cbn [fst snd].
+  - destruct (unlink_sem s d n AT_REMOVEDIR) as [|re|s'|s' o] eqn:E2; cbn [fst snd ignore_enoent errno_is kind_errno opt_n_eqb].
+    + change (N.eqb ENOSYS ENOENT) with false. discriminate.
+    + destruct (N.eqb re ENOTDIR) eqn:Er; [change (N.eqb ENOSYS ENOENT) with false; discriminate|].
+      destruct (N.eqb_spec re ENOENT) as [->|Hne]; [intros _; exact (unlink_sem_enoent _ _ _ _ Hp E2)|discriminate].
+    + intros _. exact (unlink_sem_gone _ _ _ _ _ E2).
+    + change (N.eqb ENOSYS ENOENT) with false. discriminate.
+  - destruct (unlink_sem s d n AT_REMOVEDIR) as [|re|s'|s' o] eqn:E2; cbn [fst snd ignore_enoent errno_is kind_errno opt_n_eqb].
+    + change (N.eqb ENOSYS ENOTDIR) with false. cbv iota. change (N.eqb ENOSYS ENOENT) with false. discriminate.
+    + destruct (N.eqb re ENOTDIR) eqn:Er.
+      * destruct (N.eqb_spec ue ENOENT) as [->|Hne]; [intros _; exact (unlink_sem_enoent _ _ _ _ Hp E1)|discriminate].
+      * destruct (N.eqb_spec re ENOENT) as [->|Hne]; [intros _; exact (unlink_sem_enoent _ _ _ _ Hp E2)|discriminate].
+    + intros _. exact (unlink_sem_gone _ _ _ _ _ E2).
+    + change (N.eqb ENOSYS ENOTDIR) with false. cbv iota. change (N.eqb ENOSYS ENOENT) with false. discriminate.
+  - intros _. exact (unlink_sem_gone _ _ _ _ _ E1).
+  - exfalso. exact (unlink_sem_not_open _ _ _ _ _ _ E1).
+Qed.
+
+Lemma rm_rounds_ok scan fin : forall g s s' u, rm_rounds scan fin g s = Some (s', Ok u) -> exists s2, fin s2 = (s', Ok u).
+Proof.
+  induction g as [|g IH]; intros s s' u H; cbn [rm_rounds] in H; [discriminate|].
+  destruct (scan s) as [[s1 [[|]|e0]]|]; try discriminate.
+  - eapply IH. exact H.
+  - exists s1. congruence.
+Qed.
+
+Theorem rm_all_gone : forall fuel s d name s', Dyn.plain name = true ->
+  rm_all fuel s d name = Some (s', Ok tt) -> lookup s' d name = None.
+Proof.
+  intros [|f] s d name s' Hp H; cbn [rm_all] in H; [discriminate|].
+  destruct (plain_facts _ Hp) as (Hnil & Hd & Hdd & Hsl & Hnu).
+  rewrite Hsl in H. unfold dot_or_dotdot in H. rewrite Hd, Hdd in H. rewrite andb_false_r in H.
+  pose proof (rm_inode_gone s d name Hp) as Hg. destruct (rm_inode s d name) as [s1 r1]. cbn [fst snd] in Hg.
+  destruct (ignore_enoent r1) as [[]|e0] eqn:Ei.
+  - inversion H; subst. apply Hg. reflexivity.
+  - destruct (mk_open s1 d name) as [c|e'] eqn:Eo.
+    + destruct (rm_rounds_ok _ _ _ _ _ _ H) as (s2 & Hfin). cbv beta in Hfin.
+      pose proof (rm_inode_gone s2 d name Hp) as Hg2. destruct (rm_inode s2 d name) as [s3 r3]. cbn [fst snd] in Hg2.
+      inversion Hfin as [[H1 H2]]. subst s3. apply Hg2. exact H2.
+    + destruct (N.eqb_spec e' ENOENT) as [->|Hne]; [|discriminate]. inversion H; subst.
+      unfold mk_open, open1 in Eo. destruct (negb (is_dir s' d)); [discriminate|]. rewrite Hd, Hdd in Eo.
+      destruct (lookup s' d name) as [c'|]; [|reflexivity]. destruct (is_dir s' c'); discriminate.
+Qed.
+
+(* ---- RootRef::remove_all: the parent lookup (either backend), then the above ------------- *)
+From PV Require Import StaticEffects DynEffects.
+
+Section ROOT.
+Variable s : fs.
+Variable rp : bytes.
+Variables fz pfuel : nat.
+Variable o2 : bool.
+Variable gh : phandle.
+Variable ps : N.
+Variable rs : resolver.
+Hypothesis Hfz : fz <> 0%nat.
+
+Theorem root_remove_all_exact rfuel t root path t1 dir name o :
+  parent_ok s rp fz pfuel o2 gh ps rs t root path t1 dir name o -> ents_ok s ->
+  has_nul name = false -> is_nil name = false ->
+  Dyn.drun rp {| ds := s; dt := t; dseen := [] |} (root_remove_all fz o2 pfuel gh ps rfuel rs root path) =
+  match rm_all rfuel s o name with
+  | None => DNoFuel
+  | Some (s', r) => DDone {| ds := s'; dt := tdel t1 dir; dseen := [] |} r
+  end.
+Proof.
+  intros Hp Hok Hnul Hnil. unfold root_remove_all. rewrite (drun_parent s rp fz pfuel o2 gh ps rs _ _ _ _ _ _ _ _ Hp). cbn beta iota.
+  destruct Hp as (_ & Hd & Hlt & _).
+  rewrite drun_bind.
+  rewrite (remove_all_dyn rp fz Hfz rfuel s t1 [] dir o name Hok ltac:(intros x Hx; discriminate) Hd Hlt Hnul Hnil).
+  destruct (rm_all rfuel s o name) as [[s' r]|]; [|reflexivity].
+  rewrite drun_bind, drun_close_any. reflexivity.
+Qed.
+
+End ROOT.
